@@ -110,7 +110,7 @@ class _Mask(ast.NodeTransformer):
 
 
 def masked_dump(source: str, fname: str = "snapshot", drop_imports=True) -> str:
-    tree = ast.parse(source)
+    tree = ast.parse(source.lstrip("\ufeff"))
     if drop_imports:
         tree.body = [n for n in tree.body
                      if not (isinstance(n, ast.ImportFrom) and n.module == "inline_snapshot"
